@@ -118,10 +118,13 @@ func ddistReplay(in io.Reader, raw bool, args []string) (*Summary, error) {
 				wantP.SetFrac(m, den)
 			}
 			wantC := new(big.Rat).SetFrac(cum, den)
-			for _, off := range []float64{0, 0.5, -0.5} {
+			for _, off := range []float64{0, 0.5, -0.5, -1e-10, -1e-13} {
 				x := float64(k) + off
+				if off < 0 && off > -0.5 && x == float64(k) {
+					continue // not representable below k at this magnitude
+				}
 				wp, wc := wantP, wantC
-				if off == -0.5 { // floors to k-1
+				if off < 0 { // floors to k-1
 					wp, wc = new(big.Rat), new(big.Rat)
 					if k-1 >= dc.Lo && k-1 <= dc.Hi {
 						wp.SetFrac(fromLimbs(dc.Mass[k-1-dc.Lo]), den)
